@@ -34,8 +34,13 @@ type refToggles struct {
 
 var refDefault = refToggles{EnumAggregate: true, ServiceAggregate: true}
 
+// allToggles used to enumerate all four assignments, which left every spelling whose verdict depends on
+// an enum or a service being an aggregate undecided. That hid a realistic break (a seeded change that
+// drops enums from the aggregate kinds). protoc's rule is explicit in its source (descriptor.cc,
+// Symbol::IsAggregate: message, enum, package, service) and the compiler under test documents the same
+// rule, so it is now a decided part of the reference; the assumption is written into the evidence.
 func allToggles() []refToggles {
-	return []refToggles{{true, true}, {true, false}, {false, true}, {false, false}}
+	return []refToggles{refDefault}
 }
 
 const (
